@@ -696,6 +696,46 @@ def _places(rv):
     return _rv_places(rv)
 
 
+def r12(ctx, facts):
+    """a tablet's replica list is resolved entry by entry: the node a host id translates to is paired with the shard of THAT
+    raw entry. Pairs put together from two separately filtered / mapped passes (zip) shift every shard behind an entry whose
+    host id is not known yet (seed C15-j)."""
+    r = ctx.rule("R12", "TabletReplicas::from_raw_replicas pairs each resolved node with the shard of the same raw replica entry", floor=2)
+    from ..util import field_slice
+    b = facts.one(r"^scylla::routing::locator::tablets::TabletReplicas::from_raw_replicas$")
+    fam = closure_family(facts, b)
+    n = 0
+    translated = 0
+    for cb in fam:
+        for bb, c in cb.calls():
+            nm = (c.name or c.decl or "").split("::")[-1]
+            if bb in cb.live_blocks and nm in ("zip", "unzip", "zip_eq", "zip_longest", "interleave"):
+                r.instance("no-positional-pairing:" + nm, False,
+                           "%s re-pairs two sequences by position in %s: as soon as one of them skips an entry (an unknown host id) every later node gets another entry's shard" % (nm, fn_short(cb.path)), c.span)
+        for bb in sorted(cb.live_blocks):
+            for st in cb.stmts(bb):
+                if not (st[0] == "A" and st[2][0] == "agg" and st[2][1][0] == "tuple" and len(st[2][2]) == 2 and not st[1][1]):
+                    continue
+                ty = cb.local_ty(st[1][0])
+                if not (ty.startswith("(alloc::sync::Arc<scylla::cluster::node::Node>") and ty.rstrip(")").endswith("u32")):
+                    continue
+                n += 1
+                node_op, shard_op = st[2][2]
+                n_seen, n_calls, _ = field_slice(cb, node_op)
+                s_seen, s_calls, s_bins = field_slice(cb, shard_op)
+                params = set(range(1, cb.argc + 1))
+                n_roots = {l for l, f in n_seen if l in params and l != 1 and f[:1] == (0,)}
+                s_roots = {l for l, f in s_seen if l in params and l != 1 and f[:1] == (1,)}
+                if any((c.decl or c.name or "").endswith("Fn::call") for c in n_calls):
+                    translated += 1
+                ok = bool(n_roots & s_roots) and not s_bins and not [c for c in s_calls if (c.decl or c.name or "").split("::")[-1] not in ("clone", "deref", "from", "into")]
+                r.instance("pair-from-one-entry:%s#%d" % (fn_short(cb.path), n), ok,
+                           "a (node, shard) pair of a tablet is not built from the two halves of one raw replica entry (node from %s, shard from %s)"
+                           % (sorted(n_seen)[:4], sorted(s_seen)[:4]), cb.stmt_span(st))
+    r.instance("pairs-are-assembled-entry-by-entry", n >= 1 and translated >= 1,
+               "from_raw_replicas no longer builds its (node, shard) pairs in the closure that translates a raw entry (%d pair constructions, %d next to the translation)" % (n, translated), b.span)
+
+
 def check(ctx):
     facts = inline_view(ctx.facts("default"))
     add = None
@@ -703,7 +743,7 @@ def check(ctx):
         add = r1(ctx, facts)
     except AnchorLost as ex:
         ctx.rule("R1x", "anchors of r1").fail("anchor-lost", str(ex))
-    for fn in ((lambda c, f: r2(c, f, add)) if add else None, r3, r4, r5, r6, r7, r8, r9, r10, r11):
+    for fn in ((lambda c, f: r2(c, f, add)) if add else None, r3, r4, r5, r6, r7, r8, r9, r10, r11, r12):
         if fn is None:
             continue
         try:
